@@ -768,6 +768,102 @@ async fn set_key(shared: &SharedState, k: &Value) -> Result<(), String> {
     kk.update_key(key).await.map_err(|e| e.to_string())
 }
 
+// ------------------------------------------------------------------------------------------
+// killable actors (C01: the two 500 paths of the handler need a dead actor).  Scenario field
+// `killable: ["key_keeper" | "agent_status"]` puts that actor's task on a runtime of its own and
+// swaps its handle into the SharedState; op {"op": "kill_actor", "actor": ...} shuts that runtime
+// down, after which every call on the handle returns Err (send/receive error), exactly as when the
+// actor task has died in production.  The SharedState fields are private and there is no
+// constructor from parts, so the handle (one pointer: a newtype over mpsc::Sender) is located in
+// the struct by its value and overwritten; the layout facts relied upon are checked at run time
+// and the scenario fails with "killable: ..." instead of guessing when they do not hold.
+// ------------------------------------------------------------------------------------------
+static KILLABLE: Mutex<Vec<(String, tokio::runtime::Runtime)>> = Mutex::new(Vec::new());
+
+fn swap_handle<S, T>(holder: &mut S, probe: T, new: T) -> Result<(), String> {
+    use std::mem::{size_of, transmute_copy};
+    if size_of::<T>() != size_of::<usize>() || size_of::<S>() % size_of::<usize>() != 0
+        || std::mem::align_of::<S>() < std::mem::align_of::<usize>() {
+        return Err("killable: actor handle is not a single pointer in this build".to_string());
+    }
+    unsafe {
+        let old: usize = transmute_copy(&probe);
+        let base = holder as *mut S as *mut usize;
+        let n = size_of::<S>() / size_of::<usize>();
+        let hits: Vec<usize> = (0..n).filter(|i| *base.add(*i) == old).collect();
+        if hits.len() != 1 {
+            return Err(format!("killable: handle found {} times in SharedState", hits.len()));
+        }
+        let newp: usize = transmute_copy(&new);
+        std::mem::forget(new);
+        *base.add(hits[0]) = newp;
+        let displaced: T = transmute_copy(&old); // the clone that lived in the struct: now ours to drop
+        drop(displaced);
+    }
+    drop(probe);
+    Ok(())
+}
+
+fn make_killable(shared: &mut SharedState, actor: &str) -> Result<(), String> {
+    use gpa::shared_state::agent_status_wrapper::AgentStatusSharedState;
+    use gpa::shared_state::key_keeper_wrapper::KeyKeeperSharedState;
+    let rt = tokio::runtime::Builder::new_multi_thread().worker_threads(1).enable_all().build().map_err(|e| format!("killable: {}", e))?;
+    let r = match actor {
+        "key_keeper" => {
+            let h = { let _g = rt.enter(); KeyKeeperSharedState::start_new() };
+            let want: usize = unsafe { std::mem::transmute_copy(&h) };
+            let probe = shared.get_key_keeper_shared_state();
+            swap_handle(shared, probe, h).and_then(|_| {
+                let got: usize = unsafe { std::mem::transmute_copy(&shared.get_key_keeper_shared_state()) };
+                // (the temporary clone above is dropped normally; only its pointer value is read)
+                if got == want { Ok(()) } else { Err("killable: swap not effective".to_string()) }
+            })
+        }
+        "agent_status" => {
+            let h = { let _g = rt.enter(); AgentStatusSharedState::start_new() };
+            let want: usize = unsafe { std::mem::transmute_copy(&h) };
+            let probe = shared.get_agent_status_shared_state();
+            swap_handle(shared, probe, h).and_then(|_| {
+                let got: usize = unsafe { std::mem::transmute_copy(&shared.get_agent_status_shared_state()) };
+                if got == want { Ok(()) } else { Err("killable: swap not effective".to_string()) }
+            })
+        }
+        other => Err(format!("killable: unknown actor {:?}", other)),
+    };
+    match r {
+        Ok(()) => {
+            KILLABLE.lock().unwrap().push((actor.to_string(), rt));
+            Ok(())
+        }
+        Err(e) => {
+            rt.shutdown_background();
+            Err(e)
+        }
+    }
+}
+
+async fn kill_actor(shared: &SharedState, actor: &str) -> Result<(), String> {
+    let rt = {
+        let mut k = KILLABLE.lock().unwrap();
+        match k.iter().position(|(a, _)| a == actor) {
+            Some(i) => k.remove(i).1,
+            None => return Err(format!("kill_actor: {:?} is not listed in the scenario's `killable`", actor)),
+        }
+    };
+    let _ = tokio::task::spawn_blocking(move || rt.shutdown_timeout(Duration::from_secs(5))).await;
+    for _ in 0..2000 {
+        let dead = match actor {
+            "key_keeper" => shared.get_key_keeper_shared_state().get_wireserver_rules().await.is_err(),
+            _ => shared.get_agent_status_shared_state().get_connection_count().await.is_err(),
+        };
+        if dead {
+            return Ok(());
+        }
+        tokio::time::sleep(Duration::from_millis(1)).await;
+    }
+    Err(format!("kill_actor: {} still answers", actor))
+}
+
 async fn run_ops(ops: Option<&Value>, shared: &SharedState, env: &Env, snaps: &Mutex<Vec<Value>>) -> Result<(), String> {
     let list = match ops.and_then(|x| x.as_array()) {
         Some(l) => l,
@@ -791,7 +887,41 @@ async fn run_ops(ops: Option<&Value>, shared: &SharedState, env: &Env, snaps: &M
                 let port = op.get("port").and_then(|x| x.as_u64()).ok_or("remove_audit.port")? as u16;
                 hooks::AUDIT.lock().unwrap().remove(&port);
             }
+            "kill_actor" => kill_actor(shared, op.get("actor").and_then(|x| x.as_str()).unwrap_or("")).await?,
             "clear_summary" => shared.get_agent_status_shared_state().clear_all_summary().await.map_err(|e| e.to_string())?,
+            "wait_trace" => {
+                // wait until the accept processing of the n-th connection from `port` is over: `lookups` lookup
+                // events for the port are in the H1 trace and every lookup that found an entry has its remove event
+                let port = op.get("port").and_then(|x| x.as_u64()).ok_or("wait_trace.port")? as u16;
+                let want = op.get("lookups").and_then(|x| x.as_u64()).unwrap_or(1) as usize;
+                let limit = Duration::from_millis(op.get("timeout_ms").and_then(|x| x.as_u64()).unwrap_or(3000));
+                let t0 = std::time::Instant::now();
+                loop {
+                    let (lookups, found, removes) = {
+                        let tr = hooks::TRACE.lock().unwrap();
+                        let mut l = 0usize;
+                        let mut f = 0usize;
+                        let mut r = 0usize;
+                        for e in tr.iter() {
+                            match e {
+                                hooks::Event::Lookup { port: p, found } if *p == port => {
+                                    l += 1;
+                                    if *found {
+                                        f += 1;
+                                    }
+                                }
+                                hooks::Event::Remove { port: p, .. } if *p == port => r += 1,
+                                _ => {}
+                            }
+                        }
+                        (l, f, r)
+                    };
+                    if (lookups >= want && removes >= found) || t0.elapsed() > limit {
+                        break;
+                    }
+                    tokio::time::sleep(Duration::from_millis(1)).await;
+                }
+            }
             "sleep_ms" => tokio::time::sleep(Duration::from_millis(op.get("ms").and_then(|x| x.as_u64()).unwrap_or(1))).await,
             "snapshot" => {
                 let s = json!({"label": op.get("label").cloned().unwrap_or(Value::Null),
@@ -1168,10 +1298,21 @@ async fn run_scenario(sc: Value, env: Arc<Env>) -> Value {
     });
     *CURRENT.lock().unwrap() = Some(rec.clone());
 
-    let shared = SharedState::start_all();
+    let mut shared = SharedState::start_all();
     let snaps = Arc::new(Mutex::new(Vec::new()));
     let expected = Arc::new(Mutex::new(HashMap::new()));
     let mut error: Option<String> = None;
+    for (_, rt) in KILLABLE.lock().unwrap().drain(..) {
+        rt.shutdown_background();
+    }
+    if let Some(list) = sc.get("killable").and_then(|x| x.as_array()) {
+        for a in list {
+            if let Err(e) = make_killable(&mut shared, a.as_str().unwrap_or("")) {
+                error = Some(e);
+            }
+        }
+    }
+    let shared = shared;
 
     // ---- policy and key in force
     if let Some(rules) = sc.get("rules").and_then(|x| x.as_object()) {
@@ -1332,6 +1473,9 @@ async fn run_scenario(sc: Value, env: Arc<Env>) -> Value {
         "helper_pid": env.helper_pid,
     });
     hooks::FAIL_REMOVE.store(false, Ordering::SeqCst);
+    for (_, rt) in KILLABLE.lock().unwrap().drain(..) {
+        rt.shutdown_background();
+    }
     result
 }
 
